@@ -1683,6 +1683,9 @@ class UserActions(object):
     if visible_col:
       values['visibleCol'] = visible_col
     position = col_info.get('_position', None)
+    # docmodel.insert() reads a list as one value per record; we are adding a single record, so
+    # wrap list values (e.g. ['L', 2, 3] for recalcDeps or rules).
+    values = {k: ([v] if isinstance(v, list) else v) for k, v in values.items()}
     inserted = self._docmodel.insert(table_rec.columns, position, **values)
 
     return {
